@@ -46,7 +46,8 @@ def init_line(model, keep_ctx=False) -> str:
 
 
 # Renaming a reaction or metabolite (the `id` setters) is not among the operations documented as reverted by a context.
-NOT_REVERSIBLE = {"rename_rxn", "rename_met"}
+# Edits of a reaction that is in no model at that moment are not recorded anywhere (there is no model whose context could record them).
+NOT_REVERSIBLE = {"rename_rxn", "rename_met", "ctx_rm_edit", "detached_rule", "detached_bounds"}
 
 
 class Trace:
